@@ -59,6 +59,10 @@ def main():
             return 0
         if args.what == "selftest-determinism":
             return selftest.determinism(seed, quick=args.tier == "quick")
+        if args.what == "selftest-fidelity":
+            from props import c17
+
+            return c17.fidelity(seed)
         if args.what == "selftest-sensitivity":
             return selftest.sensitivity(seed, only=[args.path] if args.path else None)
         if args.what not in runner.PROPS:
